@@ -134,7 +134,7 @@ fn near_boundary(i: &BigInt) -> bool {
     pts.iter().any(|p| (i - p).magnitude() <= &num_bigint::BigUint::from(2u8))
 }
 
-pub const PROBES: [&str; 16] = [
+pub const PROBES: [&str; 18] = [
     "output_lovelace",
     "output_token",
     "mint",
@@ -151,12 +151,14 @@ pub const PROBES: [&str; 16] = [
     "change_without_tokens",
     "two_token_terms_summed",
     "input_value_minus_parameter",
+    "two_mint_blocks_and_a_burn",
+    "two_burn_blocks_and_a_mint",
 ];
 
 pub fn boundary_values() -> Vec<BigInt> {
     let two = |n: u32| BigInt::from(1u8) << n;
     let mut v = vec![];
-    for base in [BigInt::from(0), two(31), two(32), two(63), two(64), BigInt::from(i128::MAX), -two(31), -two(63), -two(64), BigInt::from(i128::MIN)] {
+    for base in [BigInt::from(0), two(31), two(32), two(62), two(63), two(64), BigInt::from(i128::MAX), -two(31), -two(63), -two(64), BigInt::from(i128::MIN)] {
         for d in -2i32..=2 {
             let x = &base + d;
             if x >= BigInt::from(i128::MIN) && x <= BigInt::from(i128::MAX) {
@@ -235,6 +237,19 @@ pub fn probe(kind: usize, x: &BigInt, y: &BigInt) -> Case {
         "change_without_tokens" => {
             with_tokens = false;
             tx.outputs.push(base_out(GExpr::Sub(Box::new(GExpr::Input(0)), Box::new(GExpr::Asset(0, px())))));
+        }
+        "two_mint_blocks_and_a_burn" => {
+            // partial totals: 2x may leave the field although 2x - y fits
+            tx.mints.push(GMint { amount: GExpr::Asset(0, px()), redeemer: None });
+            tx.mints.push(GMint { amount: GExpr::Asset(0, px()), redeemer: None });
+            tx.burns.push(GMint { amount: GExpr::Asset(0, py()), redeemer: None });
+            tx.outputs.push(base_out(two_ada.clone()));
+        }
+        "two_burn_blocks_and_a_mint" => {
+            tx.burns.push(GMint { amount: GExpr::Asset(0, px()), redeemer: None });
+            tx.burns.push(GMint { amount: GExpr::Asset(0, px()), redeemer: None });
+            tx.mints.push(GMint { amount: GExpr::Asset(0, py()), redeemer: None });
+            tx.outputs.push(base_out(two_ada.clone()));
         }
         "two_token_terms_summed" => tx.outputs.push(base_out(GExpr::Add(
             Box::new(GExpr::Add(Box::new(two_ada.clone()), Box::new(GExpr::Asset(0, px())))),
@@ -369,14 +384,14 @@ pub fn run(tier: Tier, seed: u64) -> Report {
     r.assumptions = vec!["a panic is counted here and charged to C14".into()];
     let vals = boundary_values();
     let nv = vals.len() as u64;
-    let y_vals: Vec<BigInt> = vec![BigInt::from(0), BigInt::from(1), BigInt::from(-1), BigInt::from(i128::MAX), BigInt::from(i128::MIN), BigInt::from(1u128 << 63), BigInt::from(1u128 << 64)];
+    let y_vals: Vec<BigInt> = vec![BigInt::from(0), BigInt::from(1), BigInt::from(-1), BigInt::from(i128::MAX), BigInt::from(i128::MIN), BigInt::from(1u128 << 63), BigInt::from(1u128 << 64), BigInt::from(1u128 << 31), BigInt::from(1u128 << 62)];
     let ny = y_vals.len() as u64;
     r.enumerate("probes", PROBES.len() as u64 * nv * ny, &|i, rc| {
         let kind = (i % PROBES.len() as u64) as usize;
         let xi = ((i / PROBES.len() as u64) % nv) as usize;
         let yi = ((i / PROBES.len() as u64 / nv) % ny) as usize;
         // y matters only for the two-parameter probes
-        if yi > 0 && !matches!(PROBES[kind], "sum_of_two_parameters_in_ada" | "difference_of_parameters_in_token" | "two_token_terms_summed") {
+        if yi > 0 && !matches!(PROBES[kind], "sum_of_two_parameters_in_ada" | "difference_of_parameters_in_token" | "two_token_terms_summed" | "two_mint_blocks_and_a_burn" | "two_burn_blocks_and_a_mint") {
             return Ok(());
         }
         let case = probe(kind, &vals[xi], &y_vals[yi]);
@@ -398,7 +413,7 @@ pub fn replay(phase: &str, tape: &[u16], seed: u64) -> Report {
             let i = ((tape[0] as u64) << 48) | ((tape[1] as u64) << 32) | ((tape[2] as u64) << 16) | tape[3] as u64;
             let vals = boundary_values();
             let nv = vals.len() as u64;
-            let y_vals: Vec<BigInt> = vec![BigInt::from(0), BigInt::from(1), BigInt::from(-1), BigInt::from(i128::MAX), BigInt::from(i128::MIN), BigInt::from(1u128 << 63), BigInt::from(1u128 << 64)];
+            let y_vals: Vec<BigInt> = vec![BigInt::from(0), BigInt::from(1), BigInt::from(-1), BigInt::from(i128::MAX), BigInt::from(i128::MIN), BigInt::from(1u128 << 63), BigInt::from(1u128 << 64), BigInt::from(1u128 << 31), BigInt::from(1u128 << 62)];
             r.enumerate(phase, 1, &|_, rc| {
                 let kind = (i % PROBES.len() as u64) as usize;
                 let xi = ((i / PROBES.len() as u64) % nv) as usize;
